@@ -429,5 +429,6 @@ func vfRIBRun(c vfRunCfg) {
 			vfReach("error")
 		}
 	}
+	r.VfLockProbe()
 	vfReach("end")
 }
